@@ -113,6 +113,12 @@ fn candidates(i: &Inner, only_objs: Option<&[u8]>, dormant_pool_threads: usize, 
                 out.push(Cand { op: Some(id), obj: o.obj, prop: "C06", clause: "wake-lost", inv: o.inv, ret: o.ret, detail: format!("{:?} #{} on o{} is suspended on gate g{} which was opened at t={} but was never resumed", o.kind, id, o.obj, g, i.gates[g].opened_at) });
             }
         }
+        else if o.waiting_self && o.start != 0 {
+            // woke itself during the poll: it is never legitimately waiting
+            if pool_capacity || !pool_task(if o.last_poll_task != usize::MAX { o.last_poll_task } else { o.runner_task }) {
+                out.push(Cand { op: Some(id), obj: o.obj, prop: "C06", clause: "wake-lost", inv: o.inv, ret: o.ret, detail: format!("{:?} #{} on o{} woke its own waker during a poll and returned Pending, but was never polled again", o.kind, id, o.obj) });
+            }
+        }
         // else: started and busy inside its body: whatever it waits for is reported on its own
     }
     // (3) callers waiting for a future whose operation has finished
@@ -125,7 +131,11 @@ fn candidates(i: &Inner, only_objs: Option<&[u8]>, dormant_pool_threads: usize, 
                 }
                 waiting_things += 1;
                 if o.kind == Kind::Suspend {
-                    // suspend future: resolves once everything before it has run
+                    // suspend future: resolves once everything before it has run; the awaiting task cannot run the queue itself,
+                    // so this takes a pool thread (or another caller's sync) like any queued job
+                    if !pool_capacity {
+                        continue;
+                    }
                     out.push(Cand { op: Some(f), obj: o.obj, prop: "C13", clause: "suspend-never-resolved", inv: o.inv, ret: o.ret, detail: format!("suspend #{} on o{} never resolved", f, o.obj) });
                 } else if o.ended() && !o.cancelled {
                     let prop = if o.kind == Kind::FutSync { "C08" } else { "C07" };
